@@ -679,3 +679,214 @@ def enclosing_handler(node):
         if isinstance(a, (ast.FunctionDef, ast.AsyncFunctionDef, ast.Lambda)):
             return None
     return None
+
+
+# ---------------------------------------------------------------------------------------------------------------------
+# Rename- and direction-insensitive matching.  Rules must not depend on what a maintainer may change without changing
+# behaviour: the name of a local variable, or whether a comparison is written `a >= b` or `b <= a`.
+# ---------------------------------------------------------------------------------------------------------------------
+
+_FLIP = {ast.Gt: ast.Lt, ast.GtE: ast.LtE}
+
+
+class _CanonCmp(ast.NodeTransformer):
+    """`a > b` -> `b < a`, `a >= b` -> `b <= a`, `not a == b` stays; `a != b` stays (symmetric ones are sorted by text)."""
+
+    def visit_Compare(self, node):
+        self.generic_visit(node)
+        if len(node.ops) != 1:
+            return node
+        op = node.ops[0]
+        l, r = node.left, node.comparators[0]
+        if type(op) in _FLIP:
+            return ast.copy_location(ast.Compare(left=r, ops=[_FLIP[type(op)]()], comparators=[l]), node)
+        if isinstance(op, (ast.Eq, ast.NotEq)) and ast.unparse(l) > ast.unparse(r):
+            return ast.copy_location(ast.Compare(left=r, ops=[op], comparators=[l]), node)
+        return node
+
+
+def ctext(node):
+    """Canonical text of an expression/statement: comparisons are printed in the `<` / `<=` direction."""
+    import copy
+
+    return ast.unparse(_CanonCmp().visit(copy.deepcopy(node)))
+
+
+def ctext_of(text):
+    """Canonical text of a source fragment given as text (an expression or a statement)."""
+    tree = ast.parse(text.strip())
+    n = tree.body[0]
+    if isinstance(n, ast.Expr):
+        n = n.value
+    return ctext(n)
+
+
+def cmp_parts(node):
+    """(left text, op class, right text) of a single comparison in canonical (`<`, `<=`) direction, else None."""
+    if isinstance(node, ast.Compare) and len(node.ops) == 1:
+        op = node.ops[0]
+        l, r = node.left, node.comparators[0]
+        if type(op) in _FLIP:
+            return ast.unparse(r), _FLIP[type(op)], ast.unparse(l)
+        return ast.unparse(l), type(op), ast.unparse(r)
+    return None
+
+
+def locals_assigned(fn, pred):
+    """Names of local variables of fn that some assignment binds to a value satisfying pred(value) (nested functions
+    excluded; tuple targets are matched element-wise when the value is a tuple of the same length)."""
+    out = []
+    for n in walk_local(fn):
+        pairs = []
+        if isinstance(n, ast.Assign):
+            for t in n.targets:
+                pairs.append((t, n.value))
+        elif isinstance(n, ast.AnnAssign) and n.value is not None:
+            pairs.append((n.target, n.value))
+        elif isinstance(n, ast.NamedExpr):
+            pairs.append((n.target, n.value))
+        for t, v in pairs:
+            if isinstance(t, ast.Name):
+                if pred(v) and t.id not in out:
+                    out.append(t.id)
+            elif isinstance(t, (ast.Tuple, ast.List)) and isinstance(v, (ast.Tuple, ast.List)) and len(t.elts) == len(v.elts):
+                for te, ve in zip(t.elts, v.elts):
+                    if isinstance(te, ast.Name) and pred(ve) and te.id not in out:
+                        out.append(te.id)
+    return out
+
+
+def local_from(fn, text, required=True, what=None):
+    """The local variable of fn assigned from the expression whose text is `text` (e.g. "self.scheduleForAgents()").
+    Rename-insensitive replacement for hard-coding the variable's name in a rule."""
+    from .model import AnalysisError
+
+    names = locals_assigned(fn, lambda v: ast.unparse(v) == text)
+    if len(names) == 1:
+        return names[0]
+    if not names and not required:
+        return None
+    raise AnalysisError(f"shape not recognised: {what or 'local assigned from'} `{text}` in {qualname_of(fn)} ({len(names)} candidates)")
+
+
+def subst_names(node, mapping):
+    """Text of `node` with local names replaced according to mapping {actual name: role name}."""
+    import copy
+
+    class R(ast.NodeTransformer):
+        def visit_Name(self, n):
+            if n.id in mapping:
+                return ast.copy_location(ast.Name(id=mapping[n.id], ctx=n.ctx), n)
+            return n
+
+    return ast.unparse(R().visit(copy.deepcopy(node)))
+
+
+def _with_value(fn, name):
+    """The context expression bound to `name` by a unique `with E as name` in fn (and no other binding)."""
+    vals = []
+    for n in walk_local(fn):
+        if isinstance(n, (ast.With, ast.AsyncWith)):
+            for it in n.items:
+                if isinstance(it.optional_vars, ast.Name) and it.optional_vars.id == name:
+                    vals.append(it.context_expr)
+        elif isinstance(n, ast.Name) and isinstance(n.ctx, ast.Store) and n.id == name:
+            p = parent(n)
+            if not isinstance(p, ast.withitem):
+                return None
+    return vals[0] if len(vals) == 1 else None
+
+
+def with_vars(fn, pred):
+    """Names bound by `with E as name` in fn where pred(E)."""
+    out = []
+    for n in walk_local(fn):
+        if isinstance(n, (ast.With, ast.AsyncWith)):
+            for it in n.items:
+                if isinstance(it.optional_vars, ast.Name) and pred(it.context_expr):
+                    out.append(it.optional_vars.id)
+    return out
+
+
+def role_text(fn, expr, depth=6, params_as=None):
+    """Text of `expr` (an expression of function `fn`) that does not depend on the names of locals: every local of `fn`
+    with a single definition is replaced by its definition (recursively), and the variables bound by comprehensions /
+    lambdas are renamed `_c1, _c2, ...` in order of appearance.  Comparisons are printed in the `<` direction.
+    `expr` may also be source text (then only the normalisations apply)."""
+    import copy
+
+    if isinstance(expr, str):
+        node = ast.parse(expr.strip(), mode="eval").body
+        fn = None
+    else:
+        node = copy.deepcopy(expr)
+
+    def bound_in_comps(n):
+        out = set()
+        for c in ast.walk(n):
+            if isinstance(c, (ast.ListComp, ast.SetComp, ast.GeneratorExp, ast.DictComp)):
+                for g in c.generators:
+                    out |= {x.id for x in ast.walk(g.target) if isinstance(x, ast.Name)}
+            elif isinstance(c, ast.Lambda):
+                out |= {a.arg for a in c.args.args}
+        return out
+
+    def inline(n, d, stack):
+        if fn is None or d <= 0:
+            return n
+        shadow = bound_in_comps(n)
+
+        class T(ast.NodeTransformer):
+            def visit_Name(self, x):
+                if isinstance(x.ctx, ast.Load) and x.id not in shadow and x.id not in stack:
+                    v = local_value(fn, x.id)
+                    if v is None:
+                        v = _with_value(fn, x.id)
+                    if v is not None and not isinstance(v, (ast.Lambda,)):
+                        return inline(copy.deepcopy(v), d - 1, stack | {x.id})
+                return x
+
+        return T().visit(n)
+
+    node = inline(node, depth, frozenset())
+    counter = [0]
+
+    def norm(n, env):
+        """rename comprehension / lambda variables; env: {old: new}"""
+        if isinstance(n, (ast.ListComp, ast.SetComp, ast.GeneratorExp, ast.DictComp)):
+            env = dict(env)
+            for g in n.generators:
+                g.iter = norm(g.iter, env)
+                for x in ast.walk(g.target):
+                    if isinstance(x, ast.Name):
+                        counter[0] += 1
+                        env[x.id] = f"_c{counter[0]}"
+                g.target = norm(g.target, env)
+                g.ifs = [norm(t, env) for t in g.ifs]
+            if isinstance(n, ast.DictComp):
+                n.key, n.value = norm(n.key, env), norm(n.value, env)
+            else:
+                n.elt = norm(n.elt, env)
+            return n
+        if isinstance(n, ast.Lambda):
+            env = dict(env)
+            for a in n.args.args:
+                counter[0] += 1
+                env[a.arg] = f"_c{counter[0]}"
+                a.arg = env[a.arg]
+            n.body = norm(n.body, env)
+            return n
+        if isinstance(n, ast.Name):
+            if n.id in env:
+                n.id = env[n.id]
+            return n
+        for field, val in ast.iter_fields(n):
+            if isinstance(val, list):
+                setattr(n, field, [norm(v, env) if isinstance(v, ast.AST) else v for v in val])
+            elif isinstance(val, ast.AST):
+                setattr(n, field, norm(val, env))
+        return n
+
+    node = norm(node, {})
+    ast.fix_missing_locations(node)
+    return ctext(node)
